@@ -180,6 +180,9 @@ def selftest(prop, jobs=12):
                     shutil.rmtree(s, ignore_errors=True)
         os.environ["VERIF_TIER"] = "quick"
         r = M.run_one(m, [prop])
+        if not r.get("results") and "cannot build mutant" in (r.get("detail") or ""):
+            # the edit's anchor text (or the fix commit it reverts) is not in HEAD any more: /repo has moved on
+            return dict(name=m["name"], ok=True, stale=True, detail=r["detail"])
         rc = r["results"].get(prop, {}).get("rc")
         if m.get("benign"):
             return dict(name=m["name"], ok=rc == 0, rc=rc)
@@ -238,7 +241,8 @@ def run(ctx, spec):
         raise ThoroughFailure("driver facts disagree with rustc's MIR text: %s" % extra["mir_text_crosscheck"]["mismatches"][:3])
     st = selftest(prop)
     extra["selftest"] = dict(
-        mutants=dict(run=len(st["mutants"]), caught=sum(1 for r in st["mutants"] if r["ok"]),
+        mutants=dict(run=len(st["mutants"]), caught=sum(1 for r in st["mutants"] if r["ok"] and not r.get("stale")),
+                     stale=[r["name"] for r in st["mutants"] if r.get("stale")],
                      missed=[r["name"] for r in st["mutants"] if not r["ok"]]),
         benign=dict(run=len(st["benign"]), quiet=sum(1 for r in st["benign"] if r["ok"]),
                     false_alarms=[r["name"] for r in st["benign"] if not r["ok"]]),
